@@ -1,17 +1,494 @@
-//! C15 — correspondence driver (stub: not built yet).
+//! C15 — tape clear/reset cycles and cross-tape misuse, scalar records over `Fp`.
+//!
+//! Random interleavings over one or two `WengertList`s of: create variable, every operator form,
+//! `derivatives`, `clear`, `reset`/`do_reset` (all / partial subsets / without clear), 1..5 cycles;
+//! every binary operator form with operands of two different tapes.
+//!
+//! Beside the tapes of the case the runner keeps *shadow* tapes — a brand-new `WengertList` for
+//! every `clear` — on which the live records are re-created in reset order and every operation is
+//! repeated: `fresh=ok` says the derivative vector equals the one of the fresh tape.
+//!
+//! Line protocol: lean/Driver/C15.lean.
 
+use crate::c04::*;
+use crate::exact::Fp;
 use crate::util::*;
+use easy_ml::differentiation::Record;
 
-pub fn gen(_g: &mut Gen) {}
+// ---------------------------------------------------------------------------------------------
+// generator
+// ---------------------------------------------------------------------------------------------
 
-pub struct Runner;
+const CROSS_OPS: [&str; 5] = ["add", "sub", "mul", "div", "pow"];
+
+fn cross_line(g: &mut Gen, k: usize, a: usize, b: usize, kind: &str, form: &str) -> String {
+    g.count(&format!("c15.cross.{}.{}", kind, form));
+    match kind {
+        "binary" => format!("binary r{} r{} r{} fn={}", k, a, b, form),
+        _ => format!("{} r{} r{} r{} via={}", kind, k, a, b, form),
+    }
+}
+
+/// every binary operator form on two variables of different tapes, both operand orders, and
+/// `Sum` with the foreign record at each position
+fn gen_systematic(g: &mut Gen) {
+    let mut kinds: Vec<(&str, &str)> = vec![];
+    for op in CROSS_OPS {
+        for f in FORMS4 {
+            kinds.push((op, f));
+        }
+    }
+    for f in BINARY_FNS {
+        kinds.push(("binary", f));
+    }
+    for (kind, form) in kinds {
+        for swap in [false, true] {
+            g.op("@ tapes 2".into());
+            let (v0, v1) = (g.rng.next() % crate::exact::P, g.rng.next() % crate::exact::P);
+            g.op(format!("var r0 {} t=0 via=record", v0));
+            g.op(format!("var r1 {} t=1 via=list", v1));
+            g.op("mul r2 r0 r0 via=ref_ref".into());
+            let (a, b) = if swap { (1, 2) } else { (2, 1) };
+            let l = cross_line(g, 3, a, b, kind, form);
+            g.op(l);
+            g.op("derivs r2 via=vec".into());
+            g.op("derivs r1 via=vec".into());
+            // the tapes are still usable and hand out the next positions
+            g.op("add r4 r2 r0 via=ref_ref".into());
+            g.op("neg r5 r1 via=ref".into());
+            g.op("derivs r4 via=vec".into());
+            g.op("derivs r5 via=vec".into());
+        }
+    }
+    // Sum: constant / own-tape terms before the foreign one stay on the tape
+    for terms in ["r0,r1", "r1,r0", "r2,r0,r1", "r0,r0,r1", "r0,r2,r0,r1,r0", "r1,r2,r0"] {
+        g.count("c15.cross.sum");
+        g.op("@ tapes 2".into());
+        g.op("var r0 11 t=0 via=record".into());
+        g.op("var r1 13 t=1 via=record".into());
+        g.op("const r2 17 via=constant".into());
+        g.op(format!("sum r3 {}", terms));
+        g.op("derivs r0 via=vec".into());
+        g.op("derivs r1 via=vec".into());
+        g.op("var r4 19 t=0 via=record".into());
+        g.op("var r5 23 t=1 via=record".into());
+    }
+}
+
+fn gen_case(g: &mut Gen) {
+    let ntapes = if g.rng.chance(1, 2) { 1 } else { 2 };
+    g.count(&format!("c15.case.tapes.{}", ntapes));
+    g.op(format!("@ tapes {}", ntapes));
+    let mut st = ProgGen::new(Kind::Fp, "c15");
+    let cycles = g.rng.range(1, 5);
+    g.count(&format!("c15.case.cycles.{}", cycles));
+    // every tape starts with one or two variables
+    for t in 0..ntapes {
+        for _ in 0..g.rng.range(1, 2) {
+            let l = st.leaf_var(g, t);
+            g.op(l);
+        }
+    }
+    for cycle in 0..cycles {
+        let steps = g.rng.range(2, 14);
+        for _ in 0..steps {
+            let t = g.rng.below(ntapes);
+            let roll = g.rng.below(100);
+            let live_on = |st: &ProgGen, t: usize| -> Vec<usize> {
+                (0..st.len()).filter(|&k| st.tape[k] == Some(t) && !st.stale[k]).collect()
+            };
+            if roll < 55 {
+                if let Some(l) = st.op_instr(g, Some(t)) {
+                    g.op(l);
+                }
+            } else if roll < 63 {
+                let l = st.leaf_var(g, t);
+                g.op(l);
+            } else if roll < 67 {
+                let l = st.leaf_const(g);
+                g.op(l);
+            } else if roll < 79 {
+                // derivatives of a live result (sometimes of a constant: panics)
+                let live = live_on(&st, t);
+                if g.rng.chance(1, 10) {
+                    let consts: Vec<usize> = (0..st.len()).filter(|&k| st.tape[k].is_none()).collect();
+                    if !consts.is_empty() {
+                        g.count("c15.derivs.constant");
+                        let k = *g.rng.pick(&consts);
+                        g.op(format!("derivs r{} via=vec", k));
+                    }
+                } else if !live.is_empty() {
+                    g.count("c15.derivs.live");
+                    let via = pick_form(g, "c15", "derivs", &["vec", "try"]);
+                    let k = *g.rng.pick(&live);
+                    g.op(format!("derivs r{} via={}", k, via));
+                }
+            } else if roll < 85 {
+                // reset without a clear: legal, takes the next position
+                let live = live_on(&st, t);
+                if !live.is_empty() {
+                    let k = *g.rng.pick(&live);
+                    g.count("c15.reset.without_clear");
+                    let via = pick_form(g, "c15", "reset", &["reset", "do_reset"]);
+                    g.op(format!("reset r{} via={}", k, via));
+                    st.is_var[k] = true;
+                }
+            } else if roll < 93 && ntapes == 2 {
+                // cross-tape attempt with a random binary operator form
+                let (la, lb) = (live_on(&st, 0), live_on(&st, 1));
+                if !la.is_empty() && !lb.is_empty() {
+                    let (mut a, mut b) = (*g.rng.pick(&la), *g.rng.pick(&lb));
+                    if g.rng.chance(1, 2) {
+                        std::mem::swap(&mut a, &mut b);
+                    }
+                    let k = st.len() + 1000;
+                    let which = g.rng.below(7);
+                    let l = if which < 5 {
+                        let f = pick_form(g, "c15.crossform", CROSS_OPS[which], &FORMS4);
+                        cross_line(g, k, a, b, CROSS_OPS[which], f)
+                    } else if which == 5 {
+                        let f = *g.rng.pick(&BINARY_FNS);
+                        cross_line(g, k, a, b, "binary", f)
+                    } else {
+                        g.count("c15.cross.sum");
+                        format!("sum r{} r{},r{},r{}", k, a, a, b)
+                    };
+                    g.op(l);
+                    g.op(format!("derivs r{} via=vec", a));
+                    g.op(format!("derivs r{} via=vec", b));
+                }
+            } else if roll < 97 {
+                // misuse: a record that was not reset after its tape was cleared
+                let stale: Vec<usize> = (0..st.len()).filter(|&k| st.stale[k]).collect();
+                if !stale.is_empty() {
+                    let k = *g.rng.pick(&stale);
+                    if g.rng.chance(1, 2) {
+                        g.count("c15.misuse.derivs_of_stale");
+                        g.op(format!("derivs r{} via=vec", k));
+                    } else {
+                        g.count("c15.misuse.op_on_stale");
+                        st.allow_stale = true;
+                        let l = st.op_instr(g, st.tape[k]);
+                        st.allow_stale = false;
+                        if let Some(l) = l {
+                            // its result is as unusable as a stale record
+                            let n = st.len() - 1;
+                            st.stale[n] = true;
+                            g.op(l);
+                        }
+                    }
+                }
+            }
+        }
+        if cycle + 1 < cycles {
+            // clear one tape (or both), then reset a subset of its records in random order
+            let which: Vec<usize> = if ntapes == 2 && g.rng.chance(1, 4) { vec![0, 1] } else { vec![g.rng.below(ntapes)] };
+            for &t in &which {
+                g.op(format!("clear t={}", t));
+                g.count("c15.clear");
+                let mut on_tape: Vec<usize> = (0..st.len()).filter(|&k| st.tape[k] == Some(t)).collect();
+                for &k in &on_tape {
+                    st.stale[k] = true;
+                }
+                // candidates: the variables, sometimes also computed results
+                let results_too = g.rng.chance(1, 3);
+                on_tape.retain(|&k| st.is_var[k] || results_too);
+                g.rng.shuffle(&mut on_tape);
+                let keep = match g.rng.below(4) {
+                    0 => g.rng.below(on_tape.len() + 1), // partial subset
+                    _ => on_tape.len(),
+                };
+                g.count(if keep == on_tape.len() { "c15.reset.all_live" } else { "c15.reset.partial" });
+                for &k in on_tape.iter().take(keep.min(6)) {
+                    let via = pick_form(g, "c15", "reset", &["reset", "do_reset"]);
+                    g.op(format!("reset r{} via={}", k, via));
+                    st.stale[k] = false;
+                    st.is_var[k] = true;
+                    st.dep[k] = true;
+                    st.uses[k] = 0;
+                }
+                // a tape needs a live variable to go on
+                if live_count(&st, t) == 0 {
+                    let l = st.leaf_var(g, t);
+                    g.op(l);
+                }
+            }
+        }
+    }
+    // final derivatives of something live on every tape
+    for t in 0..ntapes {
+        let live: Vec<usize> = (0..st.len()).filter(|&k| st.tape[k] == Some(t) && !st.stale[k]).collect();
+        if let Some(&k) = live.last() {
+            g.op(format!("derivs r{} via=vec", k));
+        }
+    }
+}
+
+fn live_count(st: &ProgGen, t: usize) -> usize {
+    (0..st.len()).filter(|&k| st.tape[k] == Some(t) && !st.stale[k]).count()
+}
+
+pub fn gen(g: &mut Gen) {
+    gen_systematic(g);
+    let n = if g.thorough { 20000 } else { 800 };
+    for _ in 0..n {
+        gen_case(g);
+    }
+}
+
+// ---------------------------------------------------------------------------------------------
+// execution against the implementation
+// ---------------------------------------------------------------------------------------------
+
+#[derive(Clone)]
+struct Info {
+    tape: Option<usize>,
+    epoch: usize,
+    tainted: bool,
+}
+
+struct Case {
+    main: CaseG<Fp>,
+    // shadow.recs reference shadow.tapes and retired tapes: dropped before both
+    shadow: CaseG<Fp>,
+    retired: Vec<TapeBox<Fp>>,
+    info: Vec<Info>,
+    epoch: Vec<usize>,
+    tainted: Vec<bool>,
+}
+
+fn operand_names<'a>(toks: &[&'a str]) -> Vec<&'a str> {
+    let mut v = vec![];
+    for t in toks.iter().skip(2) {
+        if t.contains('=') {
+            continue;
+        }
+        for piece in t.split(',') {
+            if piece.chars().next().map(|c| c.is_ascii_alphabetic()).unwrap_or(false) {
+                v.push(piece);
+            }
+        }
+    }
+    v
+}
+
+fn show(r: &Rc<Fp>) -> String {
+    format!("v={} const={} idx={}", r.number, if r.history().is_none() { 1 } else { 0 }, r.index)
+}
+
+impl Case {
+    fn new(n: usize) -> Case {
+        Case {
+            main: CaseG::new(n),
+            shadow: CaseG::new(n),
+            retired: vec![],
+            info: vec![],
+            epoch: vec![0; n],
+            tainted: vec![false; n],
+        }
+    }
+
+    fn tape_of(&self, r: &Rc<Fp>) -> Option<usize> {
+        r.history().map(|h| {
+            (0..self.main.tapes.len())
+                .find(|&t| std::ptr::eq(h, self.main.tapes[t].get()))
+                .expect("record of an unknown tape")
+        })
+    }
+
+    fn stale(&self, k: usize) -> bool {
+        match self.info[k].tape {
+            None => false,
+            Some(t) => self.info[k].epoch != self.epoch[t],
+        }
+    }
+
+    fn bad(&self, k: usize) -> bool {
+        self.stale(k) || self.info[k].tainted || self.info[k].tape.map(|t| self.tainted[t]).unwrap_or(false)
+    }
+
+    fn instr(&mut self, toks: &[&str]) -> String {
+        let h: usize = opt_arg("t", toks).map(|s| s.parse().unwrap()).unwrap_or(0);
+        let ops: Vec<usize> = operand_names(toks).iter().map(|n| self.main.names[*n]).collect();
+        let mut op_tapes: Vec<usize> = vec![];
+        for &k in &ops {
+            if let Some(t) = self.info[k].tape {
+                if !op_tapes.contains(&t) {
+                    op_tapes.push(t);
+                }
+            }
+        }
+        let cross = op_tapes.len() > 1;
+        let is_var = toks[0] == "var";
+        let bad = ops.iter().any(|&k| self.bad(k)) || (is_var && self.tainted[h]);
+        let out = real_instr(&self.main, toks).or_else(|| arith_instr::<Fp>(&self.main, toks, h));
+        let r = match out {
+            None => return "bad-op".into(),
+            Some(Err(kind)) => {
+                if toks[0] == "sum" {
+                    for &t in &op_tapes {
+                        self.tainted[t] = true;
+                    }
+                }
+                return panic_str(kind);
+            }
+            Some(Ok(r)) => r,
+        };
+        let pos = self.main.recs.len();
+        let tape = self.tape_of(&r);
+        let epoch = tape.map(|t| self.epoch[t]).unwrap_or(0);
+        let answer = show(&r);
+        if cross || bad {
+            for &t in &op_tapes {
+                self.tainted[t] = true;
+            }
+            if is_var {
+                self.tainted[h] = true;
+            }
+            self.shadow.recs.push(Record::constant(Fp(0)));
+            self.info.push(Info { tape, epoch, tainted: true });
+        } else {
+            let sr = real_instr(&self.shadow, toks).or_else(|| arith_instr::<Fp>(&self.shadow, toks, h));
+            let sr = match sr {
+                Some(Ok(sr)) => sr,
+                _ => Record::constant(Fp(0)),
+            };
+            self.shadow.recs.push(sr);
+            self.info.push(Info { tape, epoch, tainted: false });
+        }
+        if is_var {
+            self.main.vars.push(pos);
+        }
+        self.main.names.insert(toks[1].to_string(), pos);
+        self.shadow.names.insert(toks[1].to_string(), pos);
+        self.main.recs.push(r);
+        answer
+    }
+
+    fn derivs(&self, toks: &[&str]) -> String {
+        let k = self.main.names[toks[1]];
+        let r = &self.main.recs[k];
+        let via = opt_arg("via", toks).unwrap_or("vec");
+        let d = match via {
+            "try" => match catch(|| r.try_derivatives()) {
+                Ok(Some(d)) => d,
+                // `derivatives()` is `try_derivatives()` + a panic for constants
+                Ok(None) => return "panic(explicit)".into(),
+                Err(kind) => return panic_str(kind),
+            },
+            _ => match catch(|| r.derivatives()) {
+                Ok(d) => d,
+                Err(kind) => return panic_str(kind),
+            },
+        };
+        let full: Vec<Fp> = Vec::from(d);
+        let fresh = if self.bad(k) {
+            "skip".to_string()
+        } else {
+            match catch(|| self.shadow.recs[k].derivatives()) {
+                Ok(sd) => {
+                    let sfull: Vec<Fp> = Vec::from(sd);
+                    if sfull == full { "ok".to_string() } else { format!("DIFF fresh_tape={}", show_list(&sfull)) }
+                }
+                Err(kind) => format!("DIFF fresh_tape={}", panic_str(kind)),
+            }
+        };
+        format!("len={} full={} fresh={}", full.len(), show_list(&full), fresh)
+    }
+
+    fn reset(&mut self, toks: &[&str]) -> String {
+        let k = self.main.names[toks[1]];
+        let via = opt_arg("via", toks).unwrap_or("reset");
+        let do_reset = |r: &mut Rc<Fp>| match via {
+            "do_reset" => {
+                let taken = std::mem::replace(r, Record::constant(Fp(0)));
+                *r = extend(Record::do_reset(taken));
+            }
+            _ => r.reset(),
+        };
+        let t = match self.info[k].tape {
+            None => {
+                // a constant: nothing happens
+                if let Err(kind) = catch(|| do_reset(&mut self.main.recs[k])) {
+                    return panic_str(kind);
+                }
+                let r = &self.main.recs[k];
+                return format!("idx={} const={}", r.index, if r.history().is_none() { 1 } else { 0 });
+            }
+            Some(t) => t,
+        };
+        if let Err(kind) = catch(|| do_reset(&mut self.main.recs[k])) {
+            return panic_str(kind);
+        }
+        let e = self.epoch[t];
+        let tainted;
+        if self.tainted[t] {
+            self.shadow.recs[k] = Record::constant(Fp(0));
+            tainted = true;
+        } else if self.info[k].epoch == e && !self.info[k].tainted {
+            do_reset(&mut self.shadow.recs[k]);
+            tainted = false;
+        } else {
+            // first reset after a clear: the record is re-created on the fresh tape
+            let number = self.main.recs[k].number.clone();
+            self.shadow.recs[k] = Record::variable(number, self.shadow.tapes[t].get());
+            tainted = false;
+        }
+        self.info[k] = Info { tape: Some(t), epoch: e, tainted };
+        let r = &self.main.recs[k];
+        format!("idx={} const={}", r.index, if r.history().is_none() { 1 } else { 0 })
+    }
+
+    fn clear(&mut self, toks: &[&str]) -> String {
+        let t: usize = opt_arg("t", toks).map(|s| s.parse().unwrap()).unwrap_or(0);
+        if let Err(kind) = catch(|| self.main.tapes[t].get().clear()) {
+            return panic_str(kind);
+        }
+        // a brand-new shadow tape; the old one is kept alive for the records still pointing to it
+        let old = std::mem::replace(&mut self.shadow.tapes[t], TapeBox::new());
+        self.retired.push(old);
+        self.epoch[t] += 1;
+        self.tainted[t] = false;
+        "ok".into()
+    }
+}
+
+pub struct Runner {
+    case: Option<Case>,
+}
 
 impl Runner {
     pub fn new() -> Runner {
-        Runner
+        Runner { case: None }
     }
 
-    pub fn step(&mut self, _toks: &[&str]) -> String {
-        "unimplemented".into()
+    pub fn step(&mut self, toks: &[&str]) -> String {
+        if toks.is_empty() {
+            return "bad-op".into();
+        }
+        if toks[0] == "@" {
+            self.case = None;
+            self.case = Some(Case::new(toks[2].parse().unwrap()));
+            return "ok".into();
+        }
+        let c = match &mut self.case {
+            None => return "bad-op".into(),
+            Some(c) => c,
+        };
+        match toks[0] {
+            "clear" => c.clear(toks),
+            "derivs" | "reset" => {
+                if !refs_ok(&c.main.names, toks, 1) {
+                    return "bad-ref".into();
+                }
+                if toks[0] == "derivs" { c.derivs(toks) } else { c.reset(toks) }
+            }
+            _ => {
+                if !refs_ok(&c.main.names, toks, 2) {
+                    return "bad-ref".into();
+                }
+                c.instr(toks)
+            }
+        }
     }
 }
